@@ -3,7 +3,7 @@
 /verif/seeded/<id>/meta.json: which property it breaks, what it needs to manifest, what was run, which checks catch it."""
 import json, os, re, subprocess, sys, tempfile, shutil, glob
 REL = {'C01':['C01','C03'],'C03':['C03','C01','C06','C15'],'C04':['C04','C05','C06'],'C05':['C05','C04'],'C06':['C06','C07'],'C07':['C07','C06'],
-       'C08':['C08','C05'],'C09':['C09','C16','C07'],'C10':['C10','C16'],'C11':['C11'],'C13':['C13'],'C14':['C14','C03'],'C15':['C15'],
+       'C08':['C08','C05'],'C09':['C09','C16','C07'],'C10':['C10','C16'],'C11':['C11','C07'],'C13':['C13'],'C14':['C14','C03'],'C15':['C15'],
        'C16':['C16','C09','C10'],'C19':['C19'],'C20':['C20']}
 env = dict(os.environ, GOFLAGS='-mod=mod', GOPROXY='off', GOSUMDB='off', GOTOOLCHAIN='local', GOVC_SELFTEST='1')
 only = sys.argv[1:]
